@@ -26,6 +26,7 @@ type c17Test struct {
 	params map[string]any
 	pkey   string // built-in parameter key
 	pval   any
+	writes int // >0: the test's MessageFunc also annotates the issue's params with seen_by=<this number>
 }
 
 type c17StrModel struct {
@@ -60,6 +61,18 @@ func c17Opt(i int, opt int, t *c17Test) []z.TestOption {
 	case 4:
 		t.params = map[string]any{"k": i}
 		return []z.TestOption{z.Params(map[string]any{"k": i})}
+	case 8:
+		// a MessageFunc that annotates the issue it formats (e.Params is the issue's own): nothing of it may show up in
+		// the issues of any other test, however similar that test is
+		t.msg = fmt.Sprintf("W%d", i)
+		t.writes = i + 1
+		m, n := t.msg, i+1
+		return []z.TestOption{z.MessageFunc(func(e *z.ZogIssue, c z.Ctx) {
+			if e.Params != nil {
+				e.Params["seen_by"] = n
+			}
+			e.SetMessage(m)
+		})}
 	case 6:
 		// a default Message inside a reusable helper, overridden by the caller's MessageFunc: the later option counts
 		t.msg = fmt.Sprintf("F%d", i)
@@ -236,7 +249,7 @@ func c17StringScenario(maxLen int, first int) mc.Scenario {
 			c := calls[ci]
 			opt := 0
 			if c.hasOpt {
-				opt = x.Choose(8, "option")
+				opt = x.Choose(9, "option")
 			}
 			chain = append(chain, fmt.Sprintf("%s/opt%d", c.name, opt))
 			s = c.apply(s, m, opt)
@@ -296,7 +309,11 @@ func c17StringScenario(maxLen int, first int) mc.Scenario {
 									perr = fmt.Sprintf("issue #%d (%s) has params %v, its test was given Params(%v)", i, is.Code, is.Params, t.params)
 								}
 							} else if t.pkey != "" {
-								if v, ok := is.Params[t.pkey]; !ok || fmt.Sprint(v) != fmt.Sprint(t.pval) || len(is.Params) != 1 {
+								extra := 0
+								if t.writes > 0 && fmt.Sprint(is.Params["seen_by"]) == fmt.Sprint(t.writes) {
+									extra = 1 // its own annotation
+								}
+								if v, ok := is.Params[t.pkey]; !ok || fmt.Sprint(v) != fmt.Sprint(t.pval) || len(is.Params) != 1+extra {
 									perr = fmt.Sprintf("issue #%d (%s) has params %v, expected exactly %s=%v", i, is.Code, is.Params, t.pkey, t.pval)
 								}
 							} else if len(is.Params) != 0 {
@@ -595,7 +612,7 @@ func c17Len(tier string) int {
 func init() {
 	Register(&Prop{
 		ID:    "C17",
-		Rule:  "one execution = one chain of ≤L builder calls on z.String() from {Min, Max, Len, HasPrefix, ContainsDigit, Not().Len, Not().HasPrefix, Not().ContainsDigit, Not().Contains, degenerate parameters Contains(empty), Not().Contains(empty), Not().HasPrefix(empty), Min(0), Not().Len(0), Not().OneOf(empty list), TestFunc} × option {none, Message, IssueCode, IssuePath, Params, Params given twice (a shared map, then the test's own), Message then MessageFunc, MessageFunc then Message (the later one counts)} and {Required, Required(Message), Optional, Default ×2, Catch ×2}, built through the real API and run on 7 subjects in both modes against a list-based model of what each call means; plus Int chains (tests × options, modifiers), plus one schema object at two places (two fields, field + slice element, field + behind pointer) vs independent copies, plus WithCoercer locality (own schema; through Ptr); every chain is non-trivial; distinct = distinct chains",
+		Rule:  "one execution = one chain of ≤L builder calls on z.String() from {Min, Max, Len, HasPrefix, ContainsDigit, Not().Len, Not().HasPrefix, Not().ContainsDigit, Not().Contains, degenerate parameters Contains(empty), Not().Contains(empty), Not().HasPrefix(empty), Min(0), Not().Len(0), Not().OneOf(empty list), TestFunc} × option {none, Message, IssueCode, IssuePath, Params, Params given twice (a shared map, then the test's own), Message then MessageFunc, MessageFunc then Message (the later one counts), a MessageFunc that annotates the params of the issue it formats} and {Required, Required(Message), Optional, Default ×2, Catch ×2}, built through the real API and run on 7 subjects in both modes against a list-based model of what each call means; plus Int chains (tests × options, modifiers), plus one schema object at two places (two fields, field + slice element, field + behind pointer) vs independent copies, plus WithCoercer locality (own schema; through Ptr); every chain is non-trivial; distinct = distinct chains",
 		Floor: 50,
 		Bound: func(tier string) string { return fmt.Sprintf("all String chains of length ≤%d, all Int chains of length ≤3", c17Len(tier)) },
 		Assumptions: []string{"Not() is followed by the methods of the interface it returns, or — called as a statement of its own — by Min / Max on the schema value (all the type system permits)", "messages are compared only where a Message option was given"},
